@@ -120,8 +120,12 @@ def constructor_lanes(food, uc, rep):
         rep.check(ok, rule, f"__init__: set_units called with (kcals, fat, protein) labels in the setter's order [{c.lineno - init.lineno:+d}]",
                   "the constructor hands the three labels to set_units in another order than the setter takes them (or in a form that does not show "
                   "the order): " + detail, loc=loc(FOOD, c))
-    if n < 8:
-        raise AnalysisError(f"Food.__init__: only {n} lane / label stores and set_units calls found")
+    lanes_stored = {st.targets[0].attr for st in walk_no_nested(init) if isinstance(st, ast.Assign) and len(st.targets) == 1
+                    and isinstance(st.targets[0], ast.Attribute) and isinstance(st.targets[0].value, ast.Name) and st.targets[0].value.id == "self"}
+    n_set = len([c for c in walk_no_nested(init) if isinstance(c, ast.Call) and isinstance(c.func, ast.Attribute) and c.func.attr == "set_units"])
+    if not set(LANES3) <= lanes_stored or n_set < 1:
+        raise AnalysisError(f"Food.__init__: the stores of the three numbers ({sorted(set(LANES3) & lanes_stored)}) or the call of the label setter "
+                            f"({n_set}) were not found")
 
 
 # =============================================================================== C11.TS
